@@ -162,6 +162,7 @@ func runC03(c *an.Ctx) {
 			c.Check(t.Of(ac.Call.Args[1]) == "p2", "C03.g", "ranges-add-arg", "the setter adds exactly the header it was given", setLocal, ac, "", nil)
 		}
 	}
+	checkPendingRangeAppendOnly(c, "C03.g")
 
 	// --- C03.b every call of the setter is verified
 	setSites := g.Sites(setLocal)
@@ -367,6 +368,19 @@ func runC03(c *an.Ctx) {
 				fs := ff.AtInstr(in)
 				okF := fs.Has(atOrAbove) || fs.Has(an.B("errors.Is("+t.Of(headC)+"#1,header.ErrEmptyStore)"))
 				c.Check(okF, "C03.c", "head-cache-only-forward", "the cached head is written only when the store was empty or with a batch at or above it", ssAppend, in, "", fs)
+				// outside the initialisation of an empty store the cached head moves BEFORE the batch goes to
+				// the Store: Head() (networkHead → setLocalHead, without incomingMu) appends concurrently with
+				// the gossip path, and while a write of height K+1 is under way a second, different header of
+				// height K+1 must already fail the adjacency test — one header per height
+				if fs.Has(atOrAbove) {
+					late := false
+					for _, uc := range invokesOf(t, "Append", nil) {
+						if (an.Flow{Fn: ssAppend}).CanReach(uc, in) {
+							late = true
+						}
+					}
+					c.Check(!late, "C03.c", "head-cache-before-store-append", "an accepted batch moves the cached head before it is handed to the Store (no window in which a second appender passes the adjacency test against the old head)", ssAppend, in, "", nil)
+				}
 			})
 			c.Min("C03.c", "writes of the cached head in syncStore.Append", nStore, 2)
 			checkArith(c, "C03.c", []*ssa.Function{ssAppend}, map[string]bool{"index": true, "slice": true, "usub": true}, nil, nil)
